@@ -229,6 +229,19 @@ theorem fill_row {σ α : Type} (proj : σ → List (List α)) (step : σ → Na
       exact ⟨s', e, f, q⟩)
   exact ⟨s', h1, h2.done, h3⟩
 
+/-! ### loop states that contain the table (`vals` alone, or `vals` together with scratch variables) -/
+
+/-- the `Array2` of values inside a loop state: the state is the table itself or a tuple whose first component it is (the
+translator orders the state variables by declaration, and every function declares `vals` first) -/
+class HasVals (σ : Type) where
+  get : σ → List (List Nat)
+
+instance : HasVals (List (List Nat)) := ⟨fun s => s⟩
+instance {β : Type} : HasVals (List (List Nat) × β) := ⟨fun s => s.1⟩
+
+@[simp] theorem HasVals.get_plain (s : List (List Nat)) : HasVals.get s = s := rfl
+@[simp] theorem HasVals.get_pair {β : Type} (v : List (List Nat)) (x : β) : HasVals.get (v, x) = v := rfl
+
 /-! ### `max_by` -/
 
 theorem foldl_maxStep_spec {α : Type} (cmp : α → α → Ordering) (score : α → Nat)
